@@ -171,7 +171,7 @@ func GenFrame(r U64, g Geo, cls int) []byte {
 // have Fibonacci-skewed size categories (category P and P-1 once, P-2 twice, ... category 0
 // most often; P = BitsStored): the histogram that gives the rare large differences the longest
 // entropy codes (JPEG lossless code lengths up to the 16-bit limit, long Golomb codes, deep
-// bit-plane counts). The multiset is shuffled and repeated when the frame is larger.
+// bit-plane counts). The multiset is padded with zero differences up to the frame size and shuffled.
 func GenSkewedFrame(r U64, g Geo) []byte {
 	P := g.BitsStored
 	maxv := (1 << P) - 1
@@ -186,21 +186,34 @@ func GenSkewedFrame(r U64, g Geo) []byte {
 			cats = append(cats, c)
 		}
 	}
+	n := g.W * g.H * g.SPP
+	for len(cats) < n { // larger frames: pad with zero differences, keeping the ladder exact
+		cats = append(cats, 0)
+	}
 	for i := len(cats) - 1; i > 0; i-- {
 		j := intn(r, i+1)
 		cats[i], cats[j] = cats[j], cats[i]
 	}
 	bps := (g.BitsAllocated + 7) / 8
 	out := make([]byte, g.FrameBytes())
-	n := g.W * g.H * g.SPP
-	x := 1 << (P - 1)
+	vals := make([]int, n)
 	for i := 0; i < n; i++ {
-		c := cats[i%len(cats)]
+		// the sample this one is predicted from by a first-order (left neighbour) predictor:
+		// left in the row, the sample above in the first column, mid-range at the origin
+		pix, c := i/g.SPP, i%g.SPP
+		row, col := pix/g.W, pix%g.W
+		x := 1 << (P - 1)
+		if col > 0 {
+			x = vals[(pix-1)*g.SPP+c]
+		} else if row > 0 {
+			x = vals[(pix-g.W)*g.SPP+c]
+		}
+		cat := cats[i]
 		d := 0
-		if c > 0 {
-			lo := 1 << (c - 1)
+		if cat > 0 {
+			lo := 1 << (cat - 1)
 			d = lo + intn(r, lo)
-			if c == P {
+			if cat == P {
 				d = lo
 			}
 		}
@@ -219,6 +232,7 @@ func GenSkewedFrame(r U64, g Geo) []byte {
 				x = maxv
 			}
 		}
+		vals[i] = x
 		o := i * bps
 		out[o] = byte(x)
 		if bps == 2 {
